@@ -201,7 +201,8 @@ def execute(sc, sim):
                "grammar_grows_between_two_lopar_writes", "grown_grammar_no_longer_context_free",
                "own_reader_after_reading_another_grammar",
                "other_format_written_to_same_prefix",
-               "refused_lopar_write_to_same_prefix_afterwards")
+               "refused_lopar_write_to_same_prefix_afterwards",
+               "cli_after_earlier_grammar_command")
     viols = []
     fmt, enc = sc["fmt"], sc["enc"]
     tb = sc["tb"]
@@ -247,8 +248,21 @@ def execute(sc, sim):
         st.add_obs(obs0)
         codec = "export4" if sc["src"] == "export" else "tigerxml"
         src = cm.render_file({"tb": tb, "codec": codec, "layout": sc["layout"], "enc": "utf-8"})
-        spec = dict(base, files={"/sim/w/tb.src": src},
-                    sessions=[{"id": "s", "ops": [["cli", cli_argv(sc)]]}])
+        cmds = [["cli", cli_argv(sc)]]
+        cfiles = {"/sim/w/tb.src": src}
+        if sc.get("extra") and sc["io_seed"] % 2 == 1:
+            # an earlier `grammar` command on another treebank in the same process (a driver
+            # script calling main() twice): this command must start from an empty grammar
+            st.probe("cli_after_earlier_grammar_command")
+            st.fault("history")
+            cfiles["/sim/w/prior.src"] = cm.render_file(
+                {"tb": sc["extra"], "codec": "export4", "layout": sc["layout"] + 1, "enc": "utf-8"})
+            a0 = cli_argv(dict(sc, fmt="rcg" if fmt == "lopar" else fmt))
+            a0[1], a0[2] = "/sim/w/prior.src", "/sim/w/prior/q"
+            a0[a0.index("--src-format") + 1] = "export"
+            cmds.insert(0, ["cli", a0])
+        spec = dict(base, files=cfiles, sessions=[{"id": "s", "ops": cmds,
+                                                   "on_error": "continue"}])
         obs = sim.run(spec)
         if sc["io_seed"] % 12 == 0 and base.get("platform", "Linux") == "Linux":
             cm.real_crosscheck(sim, st, spec, obs)
